@@ -1,0 +1,97 @@
+// Copyright 2026 SCION Association
+//
+// Licensed under the Apache License, Version 2.0 (the "License");
+// you may not use this file except in compliance with the License.
+// You may obtain a copy of the License at
+//
+//   http://www.apache.org/licenses/LICENSE-2.0
+//
+// Unless required by applicable law or agreed to in writing, software
+// distributed under the License is distributed on an "AS IS" BASIS,
+// WITHOUT WARRANTIES OR CONDITIONS OF ANY KIND, either express or implied.
+// See the License for the specific language governing permissions and
+// limitations under the License.
+
+//go:build verif
+
+// This file is only compiled with the "verif" build tag. It lets an external verification harness
+// that runs complete data planes read the values of the router's own metrics (drop counters per
+// link, BFD session counters). It adds no behaviour.
+
+package router
+
+import (
+	"github.com/prometheus/client_golang/prometheus"
+	dto "github.com/prometheus/client_model/go"
+)
+
+// VerifMetricValue returns the current value of a counter or gauge (-1 if it cannot be read).
+func VerifMetricValue(c prometheus.Metric) float64 {
+	if c == nil {
+		return -1
+	}
+	var m dto.Metric
+	if err := c.Write(&m); err != nil {
+		return -1
+	}
+	switch {
+	case m.Counter != nil:
+		return m.Counter.GetValue()
+	case m.Gauge != nil:
+		return m.Gauge.GetValue()
+	}
+	return -1
+}
+
+// VerifLinkCounters is the sum over all size classes (and traffic types) of a link's packet
+// counters.
+type VerifLinkCounters struct {
+	Input, Processed, Output                           uint64
+	BusyProcessor, BusySlowPath, BusyForwarder, Invalid uint64
+}
+
+// VerifLinkCountersOf reads the packet counters of the given link.
+func VerifLinkCountersOf(l Link) VerifLinkCounters {
+	var out VerifLinkCounters
+	if l == nil {
+		return out
+	}
+	m := l.Metrics()
+	if m == nil {
+		return out
+	}
+	get := func(c prometheus.Counter) uint64 {
+		if c == nil {
+			return 0
+		}
+		v := VerifMetricValue(c)
+		if v < 0 {
+			return 0
+		}
+		return uint64(v)
+	}
+	for sc := minSizeClass; sc < maxSizeClass; sc++ {
+		t := &m[sc]
+		out.Input += get(t.InputPacketsTotal)
+		out.Processed += get(t.ProcessedPackets)
+		out.BusyProcessor += get(t.DroppedPacketsBusyProcessor)
+		out.BusySlowPath += get(t.DroppedPacketsBusySlowPath)
+		out.BusyForwarder += get(t.DroppedPacketsBusyForwarder)
+		out.Invalid += get(t.DroppedPacketsInvalid)
+		for tt := ttOther; tt < ttMax; tt++ {
+			out.Output += get(t.Output[tt].OutputPacketsTotal)
+		}
+	}
+	return out
+}
+
+// VerifRunConfig returns the run configuration of the connector's data plane.
+func VerifRunConfig(c *Connector) RunConfig {
+	return c.DataPlane.RunConfig
+}
+
+// VerifNumInterfaces returns the number of interfaces (including the internal one) of the
+// connector's data plane.
+func VerifNumInterfaces(c *Connector) int {
+	return c.DataPlane.numInterfaces
+}
